@@ -127,7 +127,7 @@ def dm_case(rng):
     kind = rng.choice(["plain"] * 6 + ["kwargs"] * 3 + ["method", "partial", "instance", "noncallable"])
     tr = rng.choice(DM_TRANSFORMS * 3 + ["diff", "Ratio", "group_mean", ""])
     return {"kind": kind, "transform": tr, "spn": rng.choice(DM_SPN + ["default"] * 4),
-            "sw": rng.random() < 0.6, "scale": rng.choice([None, None, "2", "1/2", "-1"]),
+            "sw": rng.random() < 0.6, "scale": rng.choice([None, None, "2", "1/2", "3"]),   # positive: -1 * 0.0 = -0.0 (not modelled)
             "method": rng.choice([None, None, "between_groups", "to_overall", "to_overall", "zzz"]),
             "extra": rng.random() < 0.08}
 
@@ -137,7 +137,9 @@ class CHECK(Check):
     pid = "C03"
     technique = ("Lean 4 theorems: base rates = first-principles weighted ratios on every slice, the named/generated functions "
                  "= Frame+Aggregate composition read from tables LIFTED from _fairness_metrics.py/_generated_metrics.py/"
-                 "_make_derived_metric.py; compiled-driver correspondence with the public fairlearn.metrics functions")
+                 "_make_derived_metric.py; compiled-driver correspondence with the public fairlearn.metrics functions; the argument "
+                 "plumbing of _DerivedMetric.__init__/__call__ (validation steps, routing chain of **other_params, default "
+                 "sample_param_names, the __name__ read) lifted into Generated/DerivedSpec.lean and modelled in Model/Derived.lean")
     level_text = ("Theorems (all datasets, any group structure incl. single-member groups and empty denominators, any positive "
                   "weights): selection_rate/TPR/FPR cells equal the direct weighted ratios (TPR/FPR := 0 on an empty "
                   "denominator); the values the aggregates see are exactly {rate(g) : g observed group} and overall = rate(all "
@@ -145,7 +147,13 @@ class CHECK(Check):
                   "resp. min ratio_sub_one(rate_g/rate_all); equalized odds = Python max/min resp. mean of the TPR and FPR "
                   "disparities; generated names/dispatch tables lifted from source; make_derived_metric = the MetricFrame call. "
                   "Tie: 6 named + 25 generated functions + make_derived_metric with a bound non-sample parameter vs the compiled "
-                  "model (pool bases) and vs an independent Fraction oracle (sklearn-only bases: sklearn on first-principles slices).")
+                  "model (pool bases) and vs an independent Fraction oracle (sklearn-only bases: sklearn on first-principles slices). "
+                  "Added: make_derived_metric constructor succeeds iff callable, no 'method' parameter, transform in the 4 options, "
+                  "every failure is a ValueError; routing: name in sample_param_names -> sliced sample parameter (even 'method'), else "
+                  "'method' -> transform parameter, else bound with functools.partial; the routed call IS Fairness.derived; unknown "
+                  "method string -> ValueError for difference/ratio, ignored by group_min/group_max; a callable without __name__ "
+                  "raises AttributeError (finding F17); equalized odds for ANY pair of disparities incl. NaN/inf (Python max/min, "
+                  "NaN-skipping mean) and worst_case >= each component >= ... mean bounds.")
     design_ref = "DESIGN.md section 4, C03"
     quick_cases = 550
     thorough_cases = 6000
@@ -157,7 +165,12 @@ class CHECK(Check):
             "with positive integer/dyadic weights (a weighted single-row group is frequent: regression for defect F1); per dataset 6 "
             "(function, method, agg) combinations out of 65: the 6 named functions x {between_groups,to_overall} x {worst_case,"
             "mean}, all 25 generated <metric>_<transform> functions, make_derived_metric(selection_rate, t)(..., pos_label=0) for the "
-            "4 transforms; distinct = distinct (dataset, weights, grouping); non-trivial = >= 2 rows. thorough: EXHAUSTIVE over all "
+            "4 transforms; with probability 0.6 one make_derived_metric(metric, transform, sample_param_names)(..., **kw) experiment: "
+            "metric in {plain function, **kwargs function, function with a 'method' parameter, functools.partial, callable "
+            "instance, non-callable}, transform in the 4 options or malformed, sample_param_names in {None, default, [], "
+            "[sample_weight], [sample_weight,method], [method], [zzz], [zzz,sample_weight]}, kw subset of {sample_weight, scale, "
+            "method (valid or 'zzz'), foo}; "
+            "distinct = distinct (dataset, weights, grouping); non-trivial = >= 2 rows. thorough: EXHAUSTIVE over all "
             "(y, pred) vectors x all partitions into <= 3 groups x weights in {1,2}^n for n <= 4, and unweighted for n = 5, "
             "3 rotating combinations each")
     explanation = ("oracle: group rates from the rows in exact Fractions, then the documented aggregate (IEEE rules for x/0); for "
@@ -425,15 +438,15 @@ class CHECK(Check):
         if mline is not None:
             if mline == "bad-op":
                 return probs + [Problem("harness", f"{label}: driver bad-op")]
-            # the model follows the source: a callable without __name__ raises AttributeError at call time (finding F17)
+            # the model follows the lifted name rule: with a plain `.__name__` read a callable without __name__ raises
+            # AttributeError at call time (finding F17, repaired by be74ce5); with the getattr fallback it answers
             if mline.startswith("make:"):
                 mtok = ("make", mline[5:])
             elif mline.startswith("value:"):
                 mtok = ("val", mc.model_tok(mline[6:]))
             else:
                 mtok = ("exc", mline)
-            m_ok = (mtok == want) or (mtok[0] == "val" and want[0] == "val" and mtok[1] == want[1]) or \
-                   (nameless and mtok == ("exc", "AttributeError") and want[0] != "make")
+            m_ok = (mtok == want) or (mtok[0] == "val" and want[0] == "val" and mtok[1] == want[1])
             if not m_ok and ok:
                 probs.append(Problem("harness", f"{label}: model {mline} vs oracle {want}"))
             same = (got[0] == mtok[0]) and (mc.same(got[1], mtok[1], TOL) if got[0] == "val" else got[1] == mtok[1])
@@ -563,17 +576,6 @@ class CHECK(Check):
                 if ok and ((got[0] == "exc") != (mv == "raised")):
                     probs.append(Problem("correspondence", f"{label}: impl {got} vs model {m}", "C03.model"))
         return probs
-
-    def known(self, case, problem, entries):
-        """F17: a metric object without `__name__` (functools.partial, callable instance) is accepted by
-        make_derived_metric, but every call raises AttributeError (`self._metric_fn.__name__`)."""
-        info = getattr(problem, "info", None)
-        if info and info.get("nameless") and info.get("got") == ["exc", "AttributeError"] \
-                and problem.relation in ("C03.derived_errors", "C03.derived_eq_metricframe"):
-            for e in entries:
-                if e["id"] == "F17":
-                    return e
-        return None
 
     def signature(self, case, o):
         n = len(case["y"])
